@@ -18,24 +18,6 @@ a `Load` error while `OpenWriter` walks the snapshot files is treated like a dam
 namespace Bluge.C14
 open Bluge.Persist
 
-/-- the events by which an I/O failure enters the protocol -/
-def isFault : Event → Bool
-  | .segEnd _ false _ => true
-  | .mergeSegEnd _ false _ => true
-  | .snapEnd false _ => true
-  | .fault _ => true
-  | .persistFail _ => true
-  | .cleanupRemoveSnap _ false => true
-  | .cleanupRemoveSeg _ false => true
-  | _ => false
-
-theorem isFault_exact {ev : Event} (h : isFault ev = true) : ev.exact = true := by
-  cases ev with
-  | segEnd sid ok x => cases ok <;> simp_all [isFault, Event.exact]
-  | mergeSegEnd sid ok x => cases ok <;> simp_all [isFault, Event.exact]
-  | snapEnd ok x => cases ok <;> simp_all [isFault, Event.exact]
-  | _ => rfl
-
 /-! ## surfaced -/
 
 /-- a failed write of the persister's job, or an error inside `persistSnapshot`, makes `persistSnapshot` return an error:
@@ -269,14 +251,6 @@ theorem parked_callbacks_first_once {n : Nat} (hn : 1 ≤ n) {s s' : State} (hr 
   · cases h
 
 /-! ## a Load fault while OpenWriter runs (not an event of the protocol above: a finding) -/
-
-/-- without a fault `reopenSkip` is `reopen` -/
-theorem reopenSkip_nil (s : State) : reopenSkip [] s = reopen s := by
-  unfold reopenSkip reopen
-  have : (loadOrder s.disk).filter (fun f => !([] : List Nat).contains f.epoch) = loadOrder s.disk := by
-    rw [List.filter_eq_self]; intro a _; simp
-  simp only [this]
-  rfl
 
 /-- two snapshots (epochs 1 and 5: batches 1 and 2, acknowledged), retention 2; the writer is closed and opened again while
 `Load` fails ONCE, on the newest snapshot file: `loadSnapshots` logs it and continues — the writer silently runs on epoch 1
